@@ -325,7 +325,25 @@ def _x6(rc: RuleCtx):
         except Unsupported as e:
             raise AnalysisError(f"rdp.order_{oname}: not modelled: {e}")
         val = out.value()
-        if veq(val, want):
+
+        def _half_ok(got, wanted, nchild) -> bool:
+            """Every way the score of one half is computed is the stated score - except that a half without an interior point (at most two
+            points: never pushed, X7) may be given any constant: its priority is never used."""
+            small = canon_sign(nchild - C(2), OPS["<="])
+            for g_, v_ in cases_of(got):
+                if not g_sat(g_):
+                    continue
+                if any(veq(v_, w_) for gw_, w_ in cases_of(wanted) if g_sat(g_and(g_, gw_))):
+                    continue
+                if isinstance(v_, Rat) and v_.is_const() is not None and g_implies(g_, small):
+                    continue
+                return False
+            return True
+        halves_ok = False
+        if isinstance(val, Vec) and isinstance(want, Vec) and len(val.items) == 2 and len(want.items) == 2:
+            idx_ = env["index"]
+            halves_ok = _half_ok(val.items[0], want.items[0], idx_ + C(1)) and _half_ok(val.items[1], want.items[1], sym("L") - idx_)
+        if veq(val, want) or halves_ok:
             res.ok("X6", fi.qualname, {"triangle": "(1/2*|pt[0]-pt[index]|*max d_left, 1/2*|pt[index]-pt[-1]|*max d_right)",
                                        "area": "(sum d_left, sum d_right)", "segment": "(residuals of the endpoint fit left, right)"}[oname])
             res.sample({"scorer": fi.qualname, "left": _short(val.items[0] if isinstance(val, Vec) else val, 200)})
